@@ -38,6 +38,13 @@ func TestStress(t *testing.T) {
 		o := cstress.Opts{Callers: 8, PerCaller: 3 + rng.IntN(4), XidPool: 2 + rng.IntN(9), CloseMid: i%4 != 3, T: time.Duration(2+rng.IntN(6)) * time.Millisecond, Cfg: rng.IntN(cli.NCfg)}
 		h := cstress.Run(fam(fm), rng, o)
 		r.Eval(1)
+		if len(h.Stuck) > 0 && only < 0 {
+			// first stage: the wait expired among the other cases of a (possibly loaded) machine -- the driver re-runs
+			// this history alone with a six-fold limit, and only that verdict counts
+			r.Set("suspect_slow", []any{sreplay{i, fm}})
+			r.Inconclusive("client goroutines still blocked 20 s after Close; history re-run alone by the driver")
+			break
+		}
 		fs := cstress.CheckC11(h)
 		for _, f := range fs {
 			r.Violate("C11:stress:"+f.Key, f.Msg, sreplay{i, fm})
